@@ -19,6 +19,20 @@ func FieldName(t types.Type, i int) string {
 	return st.Field(i).Name()
 }
 
+// fieldEmbeddedStruct: field #i is an embedded (anonymous) struct value of the module — its fields are promoted.
+func fieldEmbeddedStruct(t types.Type, i int) bool {
+	st := structOf(t)
+	if st == nil || i >= st.NumFields() || !st.Field(i).Embedded() {
+		return false
+	}
+	ft := types.Unalias(st.Field(i).Type())
+	if _, isStruct := ft.Underlying().(*types.Struct); !isStruct {
+		return false
+	}
+	n, ok := ft.(*types.Named)
+	return ok && n.Obj().Pkg() != nil && strings.HasPrefix(n.Obj().Pkg().Path(), ModulePath)
+}
+
 func structOf(t types.Type) *types.Struct {
 	t = types.Unalias(t)
 	if p, ok := t.Underlying().(*types.Pointer); ok {
@@ -59,8 +73,14 @@ func ap(v ssa.Value, depth int) string {
 	case *ssa.FreeVar:
 		return "free:" + x.Name()
 	case *ssa.FieldAddr:
+		if fieldEmbeddedStruct(x.X.Type(), x.Field) {
+			return ap(x.X, depth+1) // a promoted field reads the same whether it lives in the struct or in an embedded one
+		}
 		return ap(x.X, depth+1) + "." + FieldName(x.X.Type(), x.Field)
 	case *ssa.Field:
+		if fieldEmbeddedStruct(x.X.Type(), x.Field) {
+			return ap(x.X, depth+1)
+		}
 		return ap(x.X, depth+1) + "." + FieldName(x.X.Type(), x.Field)
 	case *ssa.UnOp:
 		if x.Op == token.MUL {
